@@ -102,6 +102,9 @@ func corpus(thorough bool) [][]bqlm.Clause {
 			}
 		}
 	}
+	// time bounds taken from a binding of an earlier clause: the planner derives the
+	// lookup options of every row from shared options
+	out = append(out, bqlm.BoundAliasShapes()...)
 	if thorough {
 		// three-clause chains over a smaller vocabulary
 		var small []bqlm.Clause
@@ -135,6 +138,7 @@ func graphs() [][]*triple.Triple {
 		{T(a, p, model.OL(bqlm.LInt)), T(a, p, model.ON(b)), T(a, p, model.OP(p1)), T(b, p1, model.OP(p2)), T(a, p1, model.OP(p1))},
 		{T(a, p, model.ON(a)), T(a, p1, model.ON(a)), T(c, p2, model.OP(p2)), T(a, bqlm.QT2, model.ON(b))},
 		{T(a, p, model.ON(b))},
+		bqlm.BoundAliasGraphs()[0]["?g"],
 	}
 }
 
@@ -168,6 +172,17 @@ func query(cs []bqlm.Clause, from []string) *bqlm.Query {
 	return &bqlm.Query{From: from, Where: cs, Proj: bqlm.SelectAll(cs)}
 }
 
+// usesBoundBindings: a time bound taken from a binding ("p"@[?t,]) is only defined when an
+// earlier clause binds it, so such patterns are not permuted.
+func usesBoundBindings(cs []bqlm.Clause) bool {
+	for _, c := range cs {
+		if c.P.LoName+c.P.HiName+c.O.LoName+c.O.HiName != "" {
+			return true
+		}
+	}
+	return false
+}
+
 func hasOptional(cs []bqlm.Clause) bool {
 	for _, c := range cs {
 		if c.Optional {
@@ -189,6 +204,7 @@ func rename(cs []bqlm.Clause, m map[string]string) []bqlm.Clause {
 	for i, c := range cs {
 		for _, t := range []*bqlm.Term{&c.S, &c.P, &c.O} {
 			t.Name, t.As, t.IDAlias, t.TypeAlias, t.AtAlias = r(t.Name), r(t.As), r(t.IDAlias), r(t.TypeAlias), r(t.AtAlias)
+			t.LoName, t.HiName = r(t.LoName), r(t.HiName)
 		}
 		out[i] = c
 	}
@@ -347,7 +363,7 @@ func (c *ctx) relationsOnStore(ci int, cs []bqlm.Clause, gi int, data []*triple.
 		}
 	}
 	// (f) every permutation of the clauses (no OPTIONAL)
-	if len(cs) > 1 && !hasOptional(cs) {
+	if len(cs) > 1 && !hasOptional(cs) && !usesBoundBindings(cs) {
 		perm(len(cs), func(p []int) {
 			identity := true
 			for i, x := range p {
